@@ -4,6 +4,7 @@ package buffers
 
 import (
 	"fmt"
+	"math"
 	"os"
 	"strings"
 	"syscall"
@@ -27,7 +28,7 @@ func mapsMention(name string) bool {
 func TestC11_MirroredModel(t *testing.T) {
 	rec := evid.For("C11")
 	page := syscall.Getpagesize()
-	rec.SetRule("rapid state machine over MirroredBuffer sizes {1,2,3,5,6,7,8,12,32 pages, 1, page-1, page+1, 3*page-7 (rounded up)}: Claim/Commit/Consume/Reset with amounts from {0,1,page-1,page,free,free+1,used,used+1,size,size+1,random}; tag bytes written through every claim; oracle = ring model (claim offset from the first claim == total committed mod Size, length == min(n,free), mirror aliasing checked through a 2*Size view, committed bytes intact, used+free==Size), Destroy leaves no mapping and no backing file; non-trivial = size not a power of two AND the tail wrapped at least once; distinct = hash of size + trace")
+	rec.SetRule("rapid state machine over MirroredBuffer sizes {1,2,3,5,6,7,8,12,32 pages, 1, page-1, page+1, 3*page-7 (rounded up)}: Claim/Commit/Consume/Reset with amounts from {0,1,page-1,page,free,free+1,used,used+1,size,size+1,2^40,MaxInt,MaxInt-used,random}; tag bytes written through every claim; oracle = ring model (claim offset from the first claim == total committed mod Size, length == min(n,free), mirror aliasing checked through a 2*Size view, committed bytes intact, used+free==Size), Destroy leaves no mapping and no backing file; non-trivial = size not a power of two AND the tail wrapped at least once; distinct = hash of size + trace")
 	rec.Assume("amounts are non-negative; Destroy is called once per buffer")
 	vt.CheckSteps(t, 400, 50, func(t *rapid.T) {
 		req := rapid.SampledFrom([]int{page, 2 * page, 3 * page, 5 * page, 6 * page, 7 * page, 8 * page, 12 * page, 32 * page, 1, page - 1, page + 1, 3*page - 7, 2*page + 1}).Draw(t, "size")
@@ -66,7 +67,8 @@ func TestC11_MirroredModel(t *testing.T) {
 				rapid.IntRange(0, size+1),
 				rapid.IntRange(0, size+1),
 				rapid.IntRange(0, 64),
-				rapid.SampledFrom([]int{0, 1, page - 1, page, page + 1, free, free + 1, free - 1, used, used + 1, size, size + 1, size / 2, size/2 + 1, 1 << 40}),
+				rapid.SampledFrom([]int{0, 1, page - 1, page, page + 1, free, free + 1, free - 1, used, used + 1, size, size + 1, size / 2, size/2 + 1, 1 << 40,
+					math.MaxInt, math.MaxInt - 1, math.MaxInt - used, math.MaxInt - used + 1, math.MaxInt - size, math.MaxInt / 2}),
 			).Draw(t, lbl)
 		}
 		nonneg := func(v int) int {
